@@ -2,9 +2,9 @@
    qslst_restore_matrix) by qtrans/gen_c17s.py.  K stands for the complex numbers; numpy.fft.fft2 / ifft2 and
    numpy.linalg.pinv are section variables and everything that is relied upon about them is a hypothesis of the section
    (the discrete-Fourier-transform contract: mutually inverse, linear, convolution and correlation theorems). *)
-From Coq Require Import Arith Lia Ring Bool.
+From Coq Require Import Arith Lia Ring Bool ZArith.
 From QV Require Import CRing Sums Quat Mat NumpySem.
-From QVT Require Import Conv Tikhonov.
+From QVT Require Import Conv Tikhonov Bccb.
 From B Require Import Gen_C17 Gen_C17s.
 Local Open Scope cr_scope.
 
@@ -106,6 +106,40 @@ Proof.
   - intros l Hl. unfold T'. destruct (keq0 lam) eqn:E; [|reflexivity].
     apply keq0_spec in E. subst lam. unfold Tmat, rmadd, rmscale. ring.
 Qed.
+(* --- the dense builder of the deblurring application: column i W + j is the flattened kernel rolled by (i, j) --- *)
+Theorem C17_dense_builder_is_bccb psf r s : gen_build_bccb_matrix K H W kH kW psf r s = bccb H W (PADK psf) r s.
+Proof. reflexivity. Qed.
+(* ... and it represents the documented operator: A vec(x) = vec(A x) for every image x *)
+Theorem C17_dense_builder_represents_operator psf x r : (r < H * W)%nat ->
+  rmv (H * W) (gen_build_bccb_matrix K H W kH kW psf) (vecW W x) r = Aop psf x (r / W)%nat (r mod W)%nat.
+Proof. intros Hr. exact (bccb_is_cconv K H W (PADK psf) x r Hr). Qed.
+(* the matrix path run on the matrix of the dense builder solves the normal equations of the documented operator *)
+Theorem C17_restore_matrix_on_dense_builder Bq psf lam c :
+  let A := gen_build_bccb_matrix K H W kH kW psf in
+  let T' := if keq0 lam then rmm (H * W) (rmT A) A else Tmat A lam in
+  (forall i j, (i < H * W)%nat -> (j < H * W)%nat -> rmm (H * W) T' (pinv (H * W)%nat T') i j = rmid i j) ->
+  forall r, (r < H * W)%nat ->
+    rmv (H * W) (Tmat A lam) (vec (gen_restore_matrix K keq0 pinv H W Bq A lam c)) r = rmv (H * W) (rmT A) (vec (Bq c)) r.
+Proof. intros A T' Hinv r Hr. exact (C17_restore_matrix_solves_normal_equations Bq A lam c Hinv r Hr). Qed.
+(* --- the sparse builder: one (row, column, tap) triple per pixel and non-zero tap, duplicates summed --- *)
+Lemma pad_is_padc psf I J : PADK psf I J = padc H W kH kW psf I J.
+Proof. unfold PADK, gen_pad_psf, padc. rewrite !Nat.add_0_r, !Nat.sub_0_r. reflexivity. Qed.
+Theorem C17_csr_builder_is_coo psf r s : gen_build_bccb_csr K keq0 H W kH kW psf r s = coo H W kH kW keq0 psf r s.
+Proof. reflexivity. Qed.
+(* for a kernel no larger than the image the sparse builder has the entries of the dense builder ... *)
+Theorem C17_builders_agree psf r s : (kH <= H)%nat -> (kW <= W)%nat -> (r < H * W)%nat -> (s < H * W)%nat ->
+  gen_build_bccb_csr K keq0 H W kH kW psf r s = gen_build_bccb_matrix K H W kH kW psf r s.
+Proof.
+  intros HkH HkW Hr Hs. rewrite C17_csr_builder_is_coo, (coo_is_bccb K H W kH kW keq0 psf r s keq0_spec HkH HkW Hr Hs).
+  unfold gen_build_bccb_matrix, bccb. now rewrite pad_is_padc.
+Qed.
+(* ... hence represents the same operator *)
+Theorem C17_csr_builder_represents_operator psf x r : (kH <= H)%nat -> (kW <= W)%nat -> (r < H * W)%nat ->
+  rmv (H * W) (gen_build_bccb_csr K keq0 H W kH kW psf) (vecW W x) r = Aop psf x (r / W)%nat (r mod W)%nat.
+Proof.
+  intros HkH HkW Hr. rewrite <- (C17_dense_builder_represents_operator psf x r Hr).
+  apply rmv_ext. intros l Hl. now apply C17_builders_agree.
+Qed.
 End S.
 
 Print Assumptions C17_ATop_is_transpose.
@@ -114,6 +148,9 @@ Print Assumptions C17_restore_fft_solves_normal_equations.
 Print Assumptions C17_restore_fft_inverts_blur.
 Print Assumptions C17_restore_fft_channelwise.
 Print Assumptions C17_restore_matrix_solves_normal_equations.
+Print Assumptions C17_dense_builder_represents_operator.
+Print Assumptions C17_builders_agree.
+Print Assumptions C17_csr_builder_represents_operator.
 
 (* ------------------------------------------------------------------------------------------------
    The contract is satisfiable, and by the transform NumPy documents: with K the complex numbers (pairs of reals) and
